@@ -149,6 +149,16 @@ func c03(tier string) []*explore.Scenario {
 		}
 	}
 	out = append(out, c03Foreign())
+	for _, kind := range []string{"Unary", "Bidi", "SStream", "CStream"} {
+		out = append(out, c03HandlerErrorValues("C03", kind, 0))
+	}
+	// the connection's read side ends with io.EOF itself, a wrapped one, a context error while calls are open
+	for _, ev := range []string{"eof", "wrapped-eof", "unexpected-eof", "canceled", "deadline"} {
+		for _, k := range []int{0, 1, 2} {
+			out = append(out, c09OneEP("C03", "1u1s", k, false, 64, 1, ev))
+		}
+		out = append(out, c09OneEP("C03", "1s", 1, true, 0, 1, ev))
+	}
 	out = append(out, c03TwoConnections(1))
 	if tier == "thorough" {
 		out = append(out, explore.Sharded(c03TwoConnections(2), 8)...)
@@ -602,6 +612,37 @@ func c03TwoConnections(bound int) *explore.Scenario {
 			}
 			c03Same(fam, "stream sa on connection 1", herr, sa.CErr, true)
 			c03Same(fam, "stream sb on connection 2", nil, sb.CErr, true)
+		},
+	}
+}
+
+// c03HandlerErrorValues: the handler fails with an error of an unusual shape - one whose GRPCStatus() says OK,
+// io.EOF itself, a wrapped io.EOF, a plain error, a context error: whatever it is, the caller sees a
+// failure, never a clean end of stream or a reply.
+func c03HandlerErrorValues(prop, kind string, bound int) *explore.Scenario {
+	fam := prop + "/handler-error-values"
+	return &explore.Scenario{
+		Name: fmt.Sprintf("%s/handler-error-values/%s/d=%d", prop, kind, bound), Family: fam, Prop: prop, Bound: bound,
+		Run: func() {
+			w := env.NewWorld()
+			d := env.NewDirect(w, env.DirectOpts{Pipe: env.PipeOpts{Cap: 64}})
+			vsched.Settle()
+			vsched.Explore(true)
+			for i, o := range []string{"herr-ok-coded", "herr-eof", "herr-wrapped-eof", "herr-plain", "herr-canceled", "herr"} {
+				tag := fmt.Sprintf("r%d", i)
+				c14RPC(w, d, kind, o, tag)
+				vsched.Quiesce()
+				r := w.Recs[tag]
+				if !r.HReturned || r.HRet == nil {
+					continue // (the handler did not get to fail: judged by other clauses)
+				}
+				if r.COpenErr == nil && (r.CErr == nil || r.CErr == io.EOF) {
+					vsched.Fail(fam+"|failure-as-success", "%s handler returned %T (%v): the caller observed %v", kind, r.HRet, r.HRet, r.CErr)
+				} else if r.COpenErr == nil && status.Code(r.CErr) == codes.OK {
+					vsched.Fail(fam+"|failure-as-success", "%s handler returned %T (%v): the caller's error %v carries the status code OK", kind, r.HRet, r.HRet, r.CErr)
+				}
+			}
+			finishDirect(d, w, true)
 		},
 	}
 }
